@@ -209,3 +209,35 @@ class range_pass(metaclass=_RangeMeta):
 def install_range_pass(*modules):
     for m in modules:
         patch(m, 'range', range_pass)
+
+
+class _IntConcMeta(_IntMeta):
+    def __call__(cls, x=0, *a, **k):
+        r = _IntMeta.__call__(int_pass, x, *a, **k)
+        return concretize(r)
+
+
+class int_concretize(metaclass=_IntConcMeta):
+    """drop-in for the module-level name `int` where a genuine Python integer is needed afterwards (list index,
+    range bound, context constructor parameter): a symbolic result is concretised by enumerate-and-fork"""
+    from_bytes = builtins.int.from_bytes
+
+
+def install_int_concretize(*modules):
+    for m in modules:
+        patch(m, 'int', int_concretize)
+
+
+def install_concretizing_int_methods():
+    """RealFloat.__int__ / Float.__int__ return genuine Python ints: a symbolic value is concretised by
+    enumerate-and-fork (used where the result becomes a list index, a range bound or a context parameter)"""
+    from fpy2 import RealFloat, Float
+    ri, fi = RealFloat.__int__, Float.__int__
+
+    def rf_int(self):
+        return concretize(ri(self))
+
+    def f_int(self):
+        return concretize(fi(self))
+    patch_attr(RealFloat, '__int__', rf_int)
+    patch_attr(Float, '__int__', f_int)
